@@ -53,6 +53,7 @@ class Profile:
         self.preload = 0  # max unrelated events preloaded per bus by a dedicated first actor
         self.burst = [2, 3, 5]
         self.acc_names = ['event_result', 'event_results_list', 'event_results_by_handler_name']  # accessors the 'acc' actor op may call
+        self.hredisp = 0.0  # probability that a handler program re-dispatches an existing root event object (a 'retry this job' handler)
         self.fan = 0.0  # probability that one root handler fans out more children than the bus accepts (back-pressure inside a handler)
         self.__dict__.update(kw)
 
@@ -97,6 +98,8 @@ def handler_prog(draw, p: Profile, nb: int, level: int, maxdepth: int, is_async:
             ops.append(op)
         elif k == 'awaitall':
             ops.append(['awaitall'])
+    if p.hredisp and chance(draw, p.hredisp):
+        ops.insert(draw(st.integers(0, len(ops))), ['hredisp', draw(st.integers(0, 7)), draw(st.integers(0, nb - 1))])
     if p.raises and chance(draw, p.raises):
         pos = draw(st.integers(0, len(ops)))
         ops = ops[:pos] + [['raise', draw(st.sampled_from(p.raise_kinds))]]
@@ -165,6 +168,9 @@ def scenario(draw, p: Profile):
             k = draw(st.sampled_from(p.actor_ops))
             if k == 'disp':
                 ops.append(['disp', draw(st.integers(0, nb - 1)), 0])
+            elif k == 'disp2':
+                # one new event object handed directly to two buses
+                ops.append(['disp', draw(st.integers(0, nb - 1)), draw(st.integers(0, maxdepth)), {'also': draw(st.integers(0, nb - 1))}])
             elif k == 'dispany':
                 ops.append(['disp', draw(st.integers(0, nb - 1)), draw(st.integers(0, maxdepth))])
             elif k == 'burst':
